@@ -327,15 +327,21 @@ class Html(base.Content):
     css_classes = cls.concate(css_classes)
     options = cls.concate(options)
     styles = cls.style_str(styles)
+    # Attribute values are data: escape them so that they cannot terminate
+    # the (double-quoted) attribute or the tag they are written into. Single
+    # quotes are harmless there and are kept for readability (e.g. `onclick`).
+    def _attr(value: Any) -> str:
+      return html_lib.escape(str(value), quote=False).replace('"', '&quot;')
+
     s.write(
         f'<{tag}',
         f' {options}' if options else None,
-        f' class="{css_classes}"' if css_classes else None,
-        f' style="{styles}"' if styles else None,
+        f' class="{_attr(css_classes)}"' if css_classes else None,
+        f' style="{_attr(styles)}"' if styles else None,
     )
     for k, v in properties.items():
       if v is not None:
-        s.write(f' {k.replace("_", "-")}="{v}"')
+        s.write(f' {k.replace("_", "-")}="{_attr(v)}"')
     s.write('>')
 
     # Write the inner HTML.
